@@ -129,6 +129,16 @@ def rand_map_grid(rng, fmt, channels, dims, kappa=None, dyadic=False):
     kappa = kappa if kappa is not None else rng.choice([Fraction(1), Fraction(2), Fraction(1, 4)])
     return ['grid', fmt.rtok(kappa), grids]
 
+def rand_name(rng):
+    """distribution names: anything but a line feed - empty, blanks, digits that look like numbers, and control / white-space characters
+    (carriage return, tab, vertical tab, form feed) and non-ASCII bytes at the front, inside and at the very end"""
+    if rng.random() < 0.65:
+        return rng.choice([b'', b'x', b'  lead', b'two words ', b'#hash', b'12 34', b'E5'])
+    alphabet = [b' ', b'\t', b'\r', b'\v', b'\f', b'#', b'1', b'e', b'pT', b'\xe9', b'\x7f', b'-', b'.']
+    body = b''.join(rng.choice(alphabet) for _ in range(rng.randint(0, 6)))
+    edge = rng.choice([b'\r', b'\t', b'\v', b'\f', b' ', b'\r\r', b' \r'])
+    return rng.choice([body + edge, edge + body, edge + body + edge, edge, body])
+
 def rand_dists(rng, fmt, n=None, two_d=None):
     n = n if n is not None else rng.choice([0, 1, 1, 2])
     out = []
@@ -139,7 +149,7 @@ def rand_dists(rng, fmt, n=None, two_d=None):
         xmax = fmt.round(xmin + Fraction(rng.randint(1, 16), rng.choice([1, 2, 4, 3, 1000])))
         ymin = fmt.round(Fraction(rng.randint(-4, 4), 2)); ymax = fmt.round(ymin + Fraction(rng.randint(1, 6), 2))
         if by == 1 and rng.random() < 0.5: ymin, ymax = Fraction(0), Fraction(1)          # what the one-dimensional shortcut constructor uses
-        name = rng.choice([b'', b'x', b'  lead', b'two words ', b'#hash', b'12 34', b'E5'])
+        name = rand_name(rng)
         out.append([bx, by, fmt.tok(xmin), fmt.tok(xmax), fmt.tok(ymin), fmt.tok(ymax), name])
     return out
 
